@@ -283,6 +283,9 @@ pub fn run(args: &Args) -> Report {
         }
     }
     if let Some(rp) = &args.replay {
+        if super::gossipnet::replay_fetch(&mut rep, args.seed, &rp["replay"], &[]) {
+            return rep;
+        }
         let ops: Vec<Op> = rp["replay"]["ops"].as_array().map(|a| a.iter().map(|o| if let Some(t) = o["announce"].as_i64() { Op::Announce(t) } else { Op::Batch(o["batch"].as_array().unwrap().iter().map(|x| x.as_u64().unwrap() as usize).collect()) }).collect()).unwrap_or_default();
         if let Some(v) = run_sequence(&c, &keys, &syms, &ops) {
             rep.violations.push(Violation { key: "replay".into(), what: v, replay: rp["replay"].clone() });
@@ -339,7 +342,9 @@ pub fn run(args: &Args) -> Report {
     if let Some((w, r)) = tviol {
         rep.violations.push(Violation { key: "announce_vs_update_threads".into(), what: w, replay: r });
     }
+    let dial_cov = super::gossipnet::report_dial(&mut rep, args.seed);
     rep.coverage = json!({
+        "dialled_address_part": dial_cov,
         "thread_level_interleavings_announce_vs_update": truns, "thread_level_all_explored": tall,
         "evaluations": seqs.len() as u64 + orders,
         "distinct_nontrivial": seqs.len() as u64,
